@@ -298,6 +298,7 @@ func c02(r *core.Report) {
 
 	c02Sib(r)
 	c02Term(r)
+	c02Backtrack(r)
 }
 
 // c02Term: resolution terminates – every recursive descent in the resolve family is on the finite
@@ -764,4 +765,178 @@ func c02Reset(r *core.Report) {
 			}
 		}
 	})
+}
+
+// c02Backtrack: positions that met a reference while it was being resolved are registered as
+// callbacks; when the resolution of that reference ends, they are either given the object found
+// or the load fails. A callback that is dropped, or run with a nil object, leaves a reference
+// unresolved in a document that "loaded successfully" (a cycle of references that designates no
+// object: Z -> Z2 -> Z).
+func c02Backtrack(r *core.Report) {
+	p := r.Prog
+	pkg := p.Pkg("openapi3")
+	info := pkg.TypesInfo
+	r.RunRule("C02.backtrack", "the function that runs the callbacks registered for a reference in progress (the range over a map of slices of functions, each called with the resolved object): (guard) the loop runs only when the object is non-nil, and because the object arrives in an interface the test also excludes a typed nil pointer (reflect IsNil); (unresolved) on the branch that skips the loop a non-nil error is produced when callbacks are registered", 2, func() {
+		n := 0
+		for _, d := range p.AllDecls("openapi3") {
+			var loop *ast.RangeStmt
+			ast.Inspect(d.Body, func(nd ast.Node) bool {
+				rs, ok := nd.(*ast.RangeStmt)
+				if !ok || rs.Value == nil {
+					return true
+				}
+				ix, ok := ast.Unparen(rs.X).(*ast.IndexExpr)
+				if !ok {
+					return true
+				}
+				mt, ok := info.TypeOf(ix.X).Underlying().(*types.Map)
+				if !ok {
+					return true
+				}
+				sl, ok := mt.Elem().Underlying().(*types.Slice)
+				if !ok {
+					return true
+				}
+				if _, ok := sl.Elem().Underlying().(*types.Signature); !ok {
+					return true
+				}
+				// the element is called in the body
+				vo := info.ObjectOf(rs.Value.(*ast.Ident))
+				called := false
+				ast.Inspect(rs.Body, func(m ast.Node) bool {
+					if c, ok := m.(*ast.CallExpr); ok {
+						if id, ok := ast.Unparen(c.Fun).(*ast.Ident); ok && info.ObjectOf(id) == vo {
+							called = true
+						}
+					}
+					return true
+				})
+				if called {
+					loop = rs
+				}
+				return true
+			})
+			if loop == nil {
+				continue
+			}
+			n++
+			fname := core.FuncName(d)
+			// the argument handed to the callbacks
+			var argObj types.Object
+			ast.Inspect(loop.Body, func(m ast.Node) bool {
+				if c, ok := m.(*ast.CallExpr); ok && len(c.Args) == 1 {
+					if id, ok := ast.Unparen(c.Fun).(*ast.Ident); ok && info.ObjectOf(id) == info.ObjectOf(loop.Value.(*ast.Ident)) {
+						if a, ok := ast.Unparen(c.Args[0]).(*ast.Ident); ok {
+							argObj = info.ObjectOf(a)
+						}
+					}
+				}
+				return true
+			})
+			// the if statement one of whose arms holds the loop
+			var guard *ast.IfStmt
+			var other ast.Stmt
+			for _, anc := range core.PathTo(d.Body, loop) {
+				if is, ok := anc.(*ast.IfStmt); ok {
+					if containsNode(is.Body, loop) {
+						guard, other = is, is.Else
+					} else if is.Else != nil && containsNode(is.Else, loop) {
+						guard, other = is, is.Body
+					}
+				}
+			}
+			gk, uk := "backtrack:guard:"+fname, "backtrack:unresolved:"+fname
+			if guard == nil || argObj == nil {
+				r.Bad(gk, p.Pos(loop.Pos()), "the callbacks are run unconditionally: a reference whose resolution found nothing hands nil to every position waiting for it, and the document loads with unresolved references")
+				r.Bad(uk, p.Pos(loop.Pos()), "no branch on which a missing object is reported")
+				continue
+			}
+			// guard: tests argObj against nil, and (interface-typed) uses reflect IsNil on it
+			cond := core.ExprStr(guard.Cond)
+			testsNil, reflective := false, false
+			scan := func(e ast.Node) {
+				ast.Inspect(e, func(m ast.Node) bool {
+					switch x := m.(type) {
+					case *ast.BinaryExpr:
+						if x.Op == token.EQL || x.Op == token.NEQ {
+							for _, pair := range [][2]ast.Expr{{x.X, x.Y}, {x.Y, x.X}} {
+								if id, ok := ast.Unparen(pair[0]).(*ast.Ident); ok && info.ObjectOf(id) == argObj {
+									if tv, ok := info.Types[pair[1]]; ok && tv.IsNil() {
+										testsNil = true
+									}
+								}
+							}
+						}
+					case *ast.CallExpr:
+						if f := core.CalleeOf(info, x); f != nil && f.FullName() == "(reflect.Value).IsNil" {
+							reflective = true
+						}
+					}
+					return true
+				})
+			}
+			scan(guard.Cond)
+			if guard.Init != nil {
+				scan(guard.Init)
+			}
+			_, isIface := argObj.Type().Underlying().(*types.Interface)
+			switch {
+			case !testsNil:
+				r.Bad(gk, p.Pos(guard.Pos()), fmt.Sprintf("the condition %q that guards the callback loop does not test the resolved object against nil", cond))
+			case isIface && !reflective:
+				r.Bad(gk, p.Pos(guard.Pos()), fmt.Sprintf("the condition %q compares an interface with nil only: the resolvers pass their (typed) pointer, so a nil *T is a non-nil interface, the callbacks run and store nil into every position waiting for the reference", cond))
+			default:
+				r.OK(gk, p.Pos(guard.Pos()), "callbacks run only with a non-nil object (typed nil excluded)")
+			}
+			// unresolved: the other arm produces an error
+			errs := false
+			if other != nil {
+				ast.Inspect(other, func(m ast.Node) bool {
+					switch x := m.(type) {
+					case *ast.AssignStmt:
+						for i, l := range x.Lhs {
+							if i < len(x.Rhs) && info.TypeOf(l) != nil && isErrorType(info.TypeOf(l)) && producesError(info, x.Rhs[i]) {
+								errs = true
+							}
+						}
+					case *ast.ReturnStmt:
+						for _, e := range x.Results {
+							if info.TypeOf(e) != nil && isErrorType(info.TypeOf(e)) && producesError(info, e) {
+								errs = true
+							}
+						}
+					}
+					return true
+				})
+			}
+			if errs {
+				r.OK(uk, p.Pos(guard.Pos()), "a reference that found no object fails the load when positions wait for it")
+			} else {
+				r.Bad(uk, p.Pos(guard.Pos()), "when the resolution of a reference ends without an object, the positions waiting for it are dropped without an error: a cycle of references that designates no object (Z -> Z2 -> Z) loads successfully with its references unresolved")
+			}
+		}
+		if n == 0 {
+			core.Fail("the function that runs the backtrack callbacks was not found in openapi3")
+		}
+	})
+}
+
+// producesError: a call of fmt.Errorf / errors.New or of a repo function returning an error, or the
+// address of a composite literal.
+func producesError(info *types.Info, e ast.Expr) bool {
+	switch x := ast.Unparen(e).(type) {
+	case *ast.CallExpr:
+		if f := core.CalleeOf(info, x); f != nil {
+			switch f.FullName() {
+			case "fmt.Errorf", "errors.New":
+				return true
+			}
+		}
+	case *ast.UnaryExpr:
+		if x.Op == token.AND {
+			_, ok := ast.Unparen(x.X).(*ast.CompositeLit)
+			return ok
+		}
+	}
+	return false
 }
